@@ -461,7 +461,11 @@ func init() {
 			emit("reset")
 			emit(fmt.Sprintf("bk.new msgexp=%d", pick(r, []int{0, 0, 50, 1000})))
 			emit(fmt.Sprintf("bk.conn 1 5 1 %s", hs("pub")))
-			emit(fmt.Sprintf("bk.conn 2 5 0 %s sei=100000", hs("sub")))
+			// the persistent subscriber: MQTT 5 (sometimes with Receive Maximum 1: copies deferred by flow control)
+			// or MQTT 3.1.1
+			subArgs := pick(r, []string{"5 0 %s sei=100000", "5 0 %s sei=100000", "5 0 %s sei=100000 rm=1", "4 0 %s"})
+			subArgs = fmt.Sprintf(subArgs, hs("sub"))
+			emit(fmt.Sprintf("bk.conn 2 %s", subArgs))
 			emit(fmt.Sprintf("bk.send 2 SUBSCRIBE id=9 f=%s:1", hs("a/#")))
 			subConn, subOpen, next := 2, true, 3
 			pid := 20
@@ -494,11 +498,13 @@ func init() {
 					} else {
 						subConn = next
 						next++
-						emit(fmt.Sprintf("bk.conn %d 5 0 %s sei=100000", subConn, hs("sub")))
+						emit(fmt.Sprintf("bk.conn %d %s", subConn, subArgs))
 						subOpen = true
 					}
 				case k < 19:
-					if subOpen {
+					if subOpen && r.Intn(2) == 0 {
+						emit(fmt.Sprintf("bk.ack %d", subConn))
+					} else if subOpen {
 						emit(fmt.Sprintf("bk.send %d PUBACK id=%d", subConn, 1+r.Intn(4)))
 					}
 				default:
